@@ -1,5 +1,6 @@
 import NunavutVerif.Lemmas.Bits
 import NunavutVerif.Lemmas.BitsCpp
+import NunavutVerif.Lemmas.BitsPy
 /-!
 # C14 — support-library bit primitives are correct for all offsets, lengths and values (integer/bit part)
 
@@ -34,6 +35,13 @@ theorem C14_copyBits_unique (dst r₁ r₂ : Buf) (h₁ : r₁.length = dst.leng
     (w₁ : WF r₁) (w₂ : WF r₂) (spec : Nat → Bool)
     (b₁ : ∀ i, bitAt r₁ i = spec i) (b₂ : ∀ i, bitAt r₂ i = spec i) : r₁ = r₂ :=
   eq_of_bitAt (by omega) w₁ w₂ (fun i => by rw [b₁, b₂])
+
+/-- Fuel sufficiency of the loop model: for *any* buffers, offsets and length (also outside the size precondition)
+the model of `nunavutCopyBits` never runs out of fuel, i.e. the `while (last_bit > src_off)` loop terminates
+within `length_bits` iterations; the only possible failure is an access outside a buffer. -/
+theorem C14_copyBits_fuel_sufficient (dst : Buf) (dOff len : Nat) (src : Buf) (sOff : Nat) :
+    copyBits dst dOff len src sOff ≠ .error .fuel :=
+  copyBits_no_fuel dst dOff len src sOff
 
 /-- `nunavutSaturateBufferFragmentBitLength` is `min len (size·8 ∸ off)`. -/
 theorem C14_saturate (size off len : Nat) : saturate size off len = min len (size * 8 - off) :=
@@ -298,5 +306,196 @@ example : Cpp.getI 16 ⟨[0x80, 0xFF, 0], 7⟩ 9 = .ok (-1) := by decide
 example : Cpp.setUxx ⟨[0, 0, 0], 7⟩ 0x1FF 9 = .ok (0, [0x80, 0xFF, 0]) := by decide
 example : Cpp.getBits ⟨[0xFF, 0xFF], 12⟩ [0xAA, 0xAA, 0xAA] 9 = .ok [0x0F, 0x00, 0xAA] := by decide
 
+
+/-! ## Python: `nunavut_support.py` (`Serializer`, `Deserializer`, `ZeroExtendingBuffer`)
+
+A serializer state is `⟨buf, off⟩` (`_buf` including the spare byte of `Serializer.new`, `_bit_offset`).
+`s.Inv`: every bit at or above the cursor is zero — true for a fresh serializer and, by the theorems below,
+preserved by every `add_*`.  `Py.Appends s s' n bit`: the cursor advanced by `n`, the buffer kept its size, the bits
+below the old cursor are untouched, the `n` bits from the old cursor are `bit 0 … bit (n-1)`, everything from the
+new cursor on is zero (so `s'.Inv` again).  "Room" hypotheses are the capacity the caller allocates; the
+unaligned byte loop needs the one spare byte (strict `<`).  An `Except.ok` result means no `IndexError`, no
+broadcast `ValueError`, no failed assertion.  A deserializer state is `⟨buf, off⟩`; `Py.deField d n` is the
+zero-extended field of `n` bits at the cursor. -/
+
+/-- T6 the invariant holds initially: `Serializer.new(n)` is `n+1` zero bytes with the cursor at 0. -/
+theorem C14_py_new_inv (n : Nat) : (⟨List.replicate (n + 1) 0, 0⟩ : Py.Ser).Inv :=
+  ⟨WF_replicate _, fun i _ => bitAt_replicate_zero _ i⟩
+
+/-- T6 `add_unaligned_bytes` appends exactly the bytes of the value (any cursor). -/
+theorem C14_py_add_unaligned_bytes (s : Py.Ser) (value : Buf) (hinv : s.Inv) (hwv : WF value)
+    (hroom : s.off / 8 + value.length < s.buf.length) :
+    ∃ s', Py.addUnalignedBytes s value = .ok s' ∧ Py.Appends s s' (8 * value.length) (bitAt value) :=
+  Py.addUnalignedBytes_spec s value hinv hwv hroom
+
+/-- T6 `add_unaligned_unsigned` appends exactly the low `bl` bits of the value (wider values are truncated,
+as documented). -/
+theorem C14_py_add_unaligned_unsigned (s : Py.Ser) (value : Int) (bl : Nat) (hinv : s.Inv) (hv : 0 ≤ value)
+    (hbl : 1 ≤ bl) (hroom : s.off / 8 + (bl + 7) / 8 < s.buf.length) :
+    ∃ s', Py.addUnalignedUnsigned s value bl = .ok s' ∧ Py.Appends s s' bl value.toNat.testBit :=
+  Py.addUnalignedUnsigned_spec s value bl hinv hv hbl hroom
+
+/-- T6 `add_unaligned_signed` appends the two's-complement bits (`2^bl + value` for a negative value). -/
+theorem C14_py_add_unaligned_signed (s : Py.Ser) (value : Int) (bl : Nat) (hinv : s.Inv) (hbl : 2 ≤ bl)
+    (hlo : -(2 ^ bl) ≤ value) (hroom : s.off / 8 + (bl + 7) / 8 < s.buf.length) :
+    ∃ s', Py.addUnalignedSigned s value bl = .ok s' ∧
+      Py.Appends s s' bl (if value < 0 then 2 ^ bl + value else value).toNat.testBit :=
+  Py.addUnalignedSigned_spec s value bl hinv hbl hlo hroom
+
+/-- T6 `add_unaligned_bit`. -/
+theorem C14_py_add_unaligned_bit (s : Py.Ser) (x : Bool) (hinv : s.Inv) (hroom : s.off / 8 < s.buf.length) :
+    ∃ s', Py.addUnalignedBit s x = .ok s' ∧ Py.Appends s s' 1 (fun _ => x) :=
+  Py.addUnalignedBit_spec s x hinv hroom
+
+/-- T6 `add_unaligned_array_of_bits` (`numpy.packbits` + byte loop + backtrack). -/
+theorem C14_py_add_unaligned_array_of_bits (s : Py.Ser) (x : List Bool) (hinv : s.Inv)
+    (hroom : s.off / 8 + (x.length + 7) / 8 < s.buf.length) :
+    ∃ s', Py.addUnalignedArrayOfBits s x = .ok s' ∧ Py.Appends s s' x.length (Py.bitOf x) :=
+  Py.addUnalignedArrayOfBits_spec s x hinv hroom
+
+/-- T6 `add_aligned_bytes` (byte-aligned cursor). -/
+theorem C14_py_add_aligned_bytes (s : Py.Ser) (x : Buf) (hinv : s.Inv) (ha : s.off % 8 = 0) (hw : WF x)
+    (hroom : s.off / 8 + x.length ≤ s.buf.length) :
+    ∃ s', Py.addAlignedBytes s x = .ok s' ∧ Py.Appends s s' (8 * x.length) (bitAt x) :=
+  Py.addAlignedBytes_spec s x hinv ha hw hroom
+
+/-- T6 `add_aligned_array_of_bits`. -/
+theorem C14_py_add_aligned_array_of_bits (s : Py.Ser) (x : List Bool) (hinv : s.Inv) (ha : s.off % 8 = 0)
+    (hroom : s.off / 8 + (x.length + 7) / 8 ≤ s.buf.length) :
+    ∃ s', Py.addAlignedArrayOfBits s x = .ok s' ∧ Py.Appends s s' x.length (Py.bitOf x) :=
+  Py.addAlignedArrayOfBits_spec s x hinv ha hroom
+
+/-- T6 `add_aligned_unsigned` / `add_aligned_signed` (arbitrary width at an aligned cursor). -/
+theorem C14_py_add_aligned_unsigned (s : Py.Ser) (value : Int) (bl : Nat) (hinv : s.Inv) (ha : s.off % 8 = 0)
+    (hv : 0 ≤ value) (hbl : 1 ≤ bl) (hroom : s.off / 8 + (bl + 7) / 8 ≤ s.buf.length) :
+    ∃ s', Py.addAlignedUnsigned s value bl = .ok s' ∧ Py.Appends s s' bl value.toNat.testBit :=
+  Py.addAlignedUnsigned_spec s value bl hinv ha hv hbl hroom
+
+theorem C14_py_add_aligned_signed (s : Py.Ser) (value : Int) (bl : Nat) (hinv : s.Inv) (ha : s.off % 8 = 0)
+    (hbl : 2 ≤ bl) (hlo : -(2 ^ bl) ≤ value) (hroom : s.off / 8 + (bl + 7) / 8 ≤ s.buf.length) :
+    ∃ s', Py.addAlignedSigned s value bl = .ok s' ∧
+      Py.Appends s s' bl (if value < 0 then 2 ^ bl + value else value).toNat.testBit :=
+  Py.addAlignedSigned_spec s value bl hinv ha hbl hlo hroom
+
+/-- T6 `add_aligned_u8/u16/u32/u64`: the low 8/16/32/64 bits of a non-negative value (`u8` requires `< 256`). -/
+theorem C14_py_add_aligned_uW (s : Py.Ser) (x : Int) (hinv : s.Inv) (ha : s.off % 8 = 0) (hx : 0 ≤ x) :
+    (x < 256 → s.off / 8 + 1 ≤ s.buf.length →
+      ∃ s', Py.addAlignedU8 s x = .ok s' ∧ Py.Appends s s' 8 x.toNat.testBit) ∧
+    (s.off / 8 + 2 ≤ s.buf.length → ∃ s', Py.addAlignedU16 s x = .ok s' ∧ Py.Appends s s' 16 x.toNat.testBit) ∧
+    (s.off / 8 + 4 ≤ s.buf.length → ∃ s', Py.addAlignedU32 s x = .ok s' ∧ Py.Appends s s' 32 x.toNat.testBit) ∧
+    (s.off / 8 + 8 ≤ s.buf.length → ∃ s', Py.addAlignedU64 s x = .ok s' ∧ Py.Appends s s' 64 x.toNat.testBit) :=
+  ⟨fun h r => Py.addAlignedU8_spec s x hinv ha hx h r, Py.addAlignedU16_spec s x hinv ha hx,
+   Py.addAlignedU32_spec s x hinv ha hx, Py.addAlignedU64_spec s x hinv ha hx⟩
+
+/-- T6 `add_aligned_i8/i16/i32/i64` on an in-range value: its two's-complement bits. -/
+theorem C14_py_add_aligned_iW (W : Nat) (s : Py.Ser) (x : Int) (hW : W = 8 ∨ W = 16 ∨ W = 32 ∨ W = 64)
+    (hinv : s.Inv) (ha : s.off % 8 = 0) (hlo : -(2 ^ (W - 1)) ≤ x) (hhi : x < 2 ^ (W - 1))
+    (hroom : s.off / 8 + W / 8 ≤ s.buf.length) :
+    ∃ s', Py.addAlignedI W s x = .ok s' ∧ Py.Appends s s' W (if x < 0 then 2 ^ W + x else x).toNat.testBit :=
+  Py.addAlignedI_spec W s x hW hinv ha hlo hhi hroom
+
+/-- `Serializer.pad_to_alignment(n)`: zero bits up to the next multiple of `n`. -/
+theorem C14_py_pad_to_alignment (s : Py.Ser) (n : Nat) (hn : 0 < n) (hinv : s.Inv)
+    (hroom : Py.padBits s.off n ≠ 0 → (s.off + Py.padBits s.off n - 1) / 8 < s.buf.length) :
+    ∃ s', Py.padToAlignment s n = .ok s' ∧ Py.Appends s s' (Py.padBits s.off n) (fun _ => false) ∧
+      s'.off % n = 0 :=
+  Py.padToAlignment_spec s n hn hinv hroom
+
+/-- T6 `fetch_unaligned_bytes`, for every buffer, cursor and count: never raises, never indexes outside, returns
+`count` bytes with the zero-extended bits from the cursor on, advances the cursor by `8·count`. -/
+theorem C14_py_fetch_unaligned_bytes (d : Py.De) (count : Nat) (hw : WF d.buf) :
+    ∃ bs, Py.fetchUnalignedBytes d count = .ok (bs, ⟨d.buf, d.off + count * 8⟩) ∧ bs.length = count ∧ WF bs ∧
+      ∀ i, bitAt bs i = (decide (i < 8 * count) && bitAt d.buf (d.off + i)) :=
+  Py.fetchUnalignedBytes_spec d count hw
+
+/-- T6 `fetch_unaligned_unsigned` / `fetch_aligned_unsigned`: the zero-extended field. -/
+theorem C14_py_fetch_unsigned (d : Py.De) (bl : Nat) (hw : WF d.buf) (hbl : 1 ≤ bl) :
+    Py.fetchUnalignedUnsigned d bl = .ok (Py.deField d bl, ⟨d.buf, d.off + bl⟩) ∧
+    (d.off % 8 = 0 → Py.fetchAlignedUnsigned d bl = .ok (Py.deField d bl, ⟨d.buf, d.off + bl⟩)) :=
+  ⟨Py.fetchUnalignedUnsigned_spec d bl hw hbl, Py.fetchAlignedUnsigned_spec d bl hw hbl⟩
+
+/-- T6 `fetch_unaligned_signed` / `fetch_aligned_signed`: two's-complement sign extension. -/
+theorem C14_py_fetch_signed (d : Py.De) (bl : Nat) (hw : WF d.buf) (hbl : 2 ≤ bl) :
+    let v : Int := if (Py.deField d bl).testBit (bl - 1) then (Py.deField d bl : Int) - 2 ^ bl
+                   else (Py.deField d bl : Int)
+    Py.fetchUnalignedSigned d bl = .ok (v, ⟨d.buf, d.off + bl⟩) ∧
+    (d.off % 8 = 0 → Py.fetchAlignedSigned d bl = .ok (v, ⟨d.buf, d.off + bl⟩)) :=
+  ⟨Py.fetchUnalignedSigned_spec d bl hw hbl, Py.fetchAlignedSigned_spec d bl hw hbl⟩
+
+/-- T6 `fetch_unaligned_bit`. -/
+theorem C14_py_fetch_unaligned_bit (d : Py.De) :
+    Py.fetchUnalignedBit d = .ok (bitAt d.buf d.off, ⟨d.buf, d.off + 1⟩) :=
+  Py.fetchUnalignedBit_spec d
+
+/-- T6 `fetch_aligned_u8…u64` / `fetch_aligned_i8…i64`. -/
+theorem C14_py_fetch_aligned_W (W : Nat) (d : Py.De) (hW : W = 8 ∨ W = 16 ∨ W = 32 ∨ W = 64)
+    (ha : d.off % 8 = 0) (hw : WF d.buf) :
+    Py.fetchAlignedU W d = .ok (Py.deField d W, ⟨d.buf, d.off + W⟩) ∧
+    Py.fetchAlignedI W d = .ok
+      (if (Py.deField d W).testBit (W - 1) then (Py.deField d W : Int) - 2 ^ W else (Py.deField d W : Int),
+       ⟨d.buf, d.off + W⟩) :=
+  ⟨Py.fetchAlignedU_spec W d hW ha hw, Py.fetchAlignedI_spec W d hW ha hw⟩
+
+/-- T6 `fetch_unaligned_array_of_bits` / `fetch_aligned_array_of_bits`, `fetch_aligned_bytes`. -/
+theorem C14_py_fetch_arrays (d : Py.De) (count : Nat) (hw : WF d.buf) :
+    Py.fetchUnalignedArrayOfBits d count
+      = .ok ((List.range count).map (fun i => bitAt d.buf (d.off + i)), ⟨d.buf, d.off + count⟩) ∧
+    (d.off % 8 = 0 → Py.fetchAlignedArrayOfBits d count
+      = .ok ((List.range count).map (fun i => bitAt d.buf (d.off + i)), ⟨d.buf, d.off + count⟩)) ∧
+    (d.off % 8 = 0 → ∃ bs, Py.fetchAlignedBytes d count = .ok (bs, ⟨d.buf, d.off + count * 8⟩) ∧
+      bs.length = count ∧ ∀ i, bitAt bs i = (decide (i < 8 * count) && bitAt d.buf (d.off + i))) :=
+  ⟨Py.fetchUnalignedArrayOfBits_spec d count hw, Py.fetchAlignedArrayOfBits_spec d count, fun ha => by
+    obtain ⟨bs, h1, h2, _, h4⟩ := Py.fetchAlignedBytes_spec d count ha
+    exact ⟨bs, h1, h2, h4⟩⟩
+
+/-- `Deserializer.pad_to_alignment(n)`. -/
+theorem C14_py_fetch_pad_to_alignment (d : Py.De) (n : Nat) (hn : 0 < n) :
+    Py.dePadToAlignment d n = .ok ⟨d.buf, d.off + Py.padBits d.off n⟩ ∧ (d.off + Py.padBits d.off n) % n = 0 :=
+  ⟨Py.dePadToAlignment_spec d n hn, Py.padBits_aligned _ _ hn⟩
+
+/-- `ZeroExtendingBuffer.get_unsigned_slice(l, r)` for `l ≤ r`: `r - l` bytes, zero beyond the buffer. -/
+theorem C14_py_get_unsigned_slice (buf : Buf) (l r : Nat) (h : l ≤ r) :
+    ∃ out, Py.getUnsignedSlice buf l r = .ok out ∧ out.length = r - l ∧
+      ∀ i, bitAt out i = (decide (i < 8 * (r - l)) && bitAt buf (8 * l + i)) := by
+  obtain ⟨out, h1, h2, _, h4⟩ := Py.slice_bits buf l r h
+  exact ⟨out, h1, h2, h4⟩
+
+/-- serialize-then-deserialize at an arbitrary cursor: what `add_unaligned_unsigned` appended is what
+`fetch_unaligned_unsigned` reads back (for a value that fits). -/
+theorem C14_py_unsigned_round_trip (s : Py.Ser) (value : Int) (bl : Nat) (hinv : s.Inv) (hv : 0 ≤ value)
+    (hfit : value < 2 ^ bl) (hbl : 1 ≤ bl) (hroom : s.off / 8 + (bl + 7) / 8 < s.buf.length) :
+    ∃ s', Py.addUnalignedUnsigned s value bl = .ok s' ∧
+      Py.fetchUnalignedUnsigned ⟨s'.buf, s.off⟩ bl = .ok (value.toNat, ⟨s'.buf, s.off + bl⟩) := by
+  obtain ⟨s', h1, _, _, hinv', hbits⟩ := Py.addUnalignedUnsigned_spec s value bl hinv hv hbl hroom
+  refine ⟨s', h1, ?_⟩
+  rw [Py.fetchUnalignedUnsigned_spec ⟨s'.buf, s.off⟩ bl hinv'.1 hbl]
+  congr 2
+  apply Nat.eq_of_testBit_eq
+  intro i
+  unfold Py.deField
+  rw [testBit_fieldOf]
+  show (decide (i < bl) && bitAt s'.buf (s.off + i)) = _
+  rw [hbits, if_neg (by omega), show s.off + i - s.off = i by omega]
+  by_cases hi : i < bl
+  · simp [hi]
+  · have hlt : value.toNat < 2 ^ bl := by
+      have : ((value.toNat : Nat) : Int) < ((2 ^ bl : Nat) : Int) := by
+        rw [Int.toNat_of_nonneg hv]; exact_mod_cast hfit
+      exact_mod_cast this
+    have : value.toNat.testBit i = false :=
+      Nat.testBit_lt_two_pow (Nat.lt_of_lt_of_le hlt (Nat.pow_le_pow_right (by omega) (by omega)))
+    simp [hi, this]
+
+/-! ### non-vacuity (Python) -/
+
+example : Py.addUnalignedUnsigned ⟨[0, 0, 0, 0], 0⟩ 5 3 = .ok ⟨[5, 0, 0, 0], 3⟩ := by decide
+example : Py.addUnalignedBytes ⟨[5, 0, 0, 0], 3⟩ [0xAB, 0xCD] = .ok ⟨[0x5D, 0x6D, 0x06, 0], 19⟩ := by decide
+-- without the spare byte the byte loop raises IndexError
+example : Py.addUnalignedBytes ⟨[5, 0], 3⟩ [0xAB, 0xCD] = .error .oob := by decide
+-- a one-byte write past the end of the array is silently dropped by NumPy (outside the room hypothesis)
+example : Py.addAlignedBytes ⟨[0, 0], 16⟩ [7] = .ok ⟨[0, 0], 24⟩ := by decide
+example : Py.fetchUnalignedUnsigned ⟨[0xFF, 0x01], 3⟩ 9 = .ok (63, ⟨[0xFF, 0x01], 12⟩) := by decide
+example : Py.fetchUnalignedSigned ⟨[0xFF, 0x01], 3⟩ 6 = .ok (-1, ⟨[0xFF, 0x01], 9⟩) := by decide
+example : Py.addAlignedI 16 ⟨[0, 0, 0], 8⟩ (-2) = .ok ⟨[0, 0xFE, 0xFF], 24⟩ := by decide
 
 end NunavutVerif.Bits
